@@ -48,6 +48,9 @@ def scenarios(tier):
     # 'a' = L1.L2 must be ONE pointer to it) resp. at 16384 (one too far: 'a' must be written in full)
     sc.append(('edge16383', dict(q=[], an=[('NULL@16358', 'r', []), ('NS', 'b', ['e']), ('NS', 'a', ['e'])], ns=[], ar=[], opt=None)))
     sc.append(('edge16384', dict(q=[], an=[('NULL@16359', 'r', []), ('NS', 'b', ['e']), ('NS', 'a', ['e'])], ns=[], ar=[], opt=None)))
+    # the remaining single-name RFC 1035 / 1348 types (their compressed writers are macro-generated)
+    sc.append(('mailbox_types', dict(q=['b'], an=[('MD', 'a', ['b']), ('MF', 'b', ['a']), ('NSAP_PTR', 'c', ['b'])],
+                                     ns=[('MB', 'a', ['b']), ('MG', 'b', ['c']), ('MR', 'd', ['a'])], ar=[('A', 'b', [])], opt=None)))
     sc.append(('twin', dict(q=['a'], an=[('NS', 'f', ['a']), ('PTR', 'a', ['f'])], ns=[], ar=[], opt=None)))
     sc.append(('soa_minfo', dict(q=[], an=[('SOA', 'a', ['b', 'c'])], ns=[('MINFO', 'd', ['a', 'b'])], ar=[], opt=None)))
     if True:      # cheap enough for the quick tier as well
